@@ -1,4 +1,4 @@
 (* C13 over the older shipped universes: the lookup-order sweep of daf_butler universe 7 (2^13 groups). *)
 From Coq Require Import String List Bool Arith.
 From V Require Import Model.Universe Model.Group Gen.Universes Proofs.DataIdProofsOldA.
-Lemma lookup_sweep_old7 : lookup_sweep u_old7 = true. Proof. vm_compute. reflexivity. Qed.
+Lemma lookup_sweep_old7 : lookup_sweep u_old7 = true. Proof. vm_cast_no_check (eq_refl true). Qed.
